@@ -6,7 +6,8 @@ import RedisVerif.Model.ConnSim
 /-
   C04 sub-driver.  One line in, one line out:
     C <minPipeline> <batchThreshold> <headerLen> <readSize> <maxBuffer> <seg,seg,…>
-        <headerLen> is `<n>` or `<n>+g` (`+g`: check_acl_permission guarded, see `hlOf`);
+        <headerLen> is `<n>` followed by any of `+g` (check_acl_permission guarded) and `+r` (the
+        recognisers / batching gate as REPAIRED by the prepared fix), see `hlOf`;
       segments are hex tokens (`x…`) separated by commas; the connection receives them as
         successive network segments and then EOF
       → n=<replies> [<reply> ; …] end=<eof|crash>
@@ -62,12 +63,20 @@ def showConn (out : List Action') : String :=
     s!"n={rs.length} [{" ; ".intercalate (rs.map showReply)}] end={if crashed acts then "crash" else "eof"}"
 
 /-- the `<headerLen>` token: `14` = the code with `parts[0]` in check_acl_permission (a name without a
-    non-white-space character panics), `14+g` = guarded (`parts.first()`, after the fix) -/
-def hlOf (t : String) : Option (Nat × Bool) :=
+    non-white-space character panics), `14+g` = guarded (`parts.first()`, after the fix); `+r` = the
+    recognisers and the batching gate as repaired by the prepared fix (`Config.repaired`).
+    Result: HEADER_LEN and the pair (guarded, repaired). -/
+def hlOf (t : String) : Option (Nat × (Bool × Bool)) :=
   match t.splitOn "+" with
-  | [n] => n.toNat?.map (fun k => (k, false))
-  | [n, "g"] => n.toNat?.map (fun k => (k, true))
-  | _ => none
+  | n :: flags =>
+    if flags.all (fun f => f == "g" || f == "r") then
+      n.toNat?.map (fun k => (k, (flags.contains "g", flags.contains "r")))
+    else none
+  | [] => none
+
+def mkCfg (mp bt hl rs mb : Nat) (fl : Bool × Bool) : Config :=
+  { minPipeline := mp, batchThreshold := bt, headerLen := hl, readSize := rs, maxBuffer := mb,
+    checked := true, nameGuard := fl.1, codec := codec1, env := C15.envD, repaired := fl.2 }
 
 def wevOf (t : String) : Option ConnW.WEv :=
   match t.toList with
@@ -84,16 +93,14 @@ def step (line : String) : String :=
     let stopO : Option (Option Nat) := if stop == "-" then some none else stop.toNat?.map some
     match mp.toNat?, bt.toNat?, hlOf hl, rs.toNat?, mb.toNat?, segsOf segs, scriptOf script, stopO with
     | some mp, some bt, some (hl, ng), some rs, some mb, some ss, some sc, some st =>
-      let cfg : Config := { minPipeline := mp, batchThreshold := bt, headerLen := hl, readSize := rs,
-                            maxBuffer := mb, checked := true, nameGuard := ng, codec := codec1, env := C15.envD }
+      let cfg : Config := mkCfg mp bt hl rs mb ng
       let r := ConnW.runW cfg ConnW.refExec ExSt.init sc ss st
       s!"w={hexOfBytes r.out} reads={r.reads}"
     | _, _, _, _, _, _, _, _ => "bad-op"
   | ["P", mp, bt, hl, rs, mb, ps, conns] =>
     match mp.toNat?, bt.toNat?, hlOf hl, rs.toNat?, mb.toNat?, ps.toNat?, (conns.splitOn ";").mapM connOf with
     | some mp, some bt, some (hl, ng), some rs, some mb, some ps, some specs =>
-      let cfg : Config := { minPipeline := mp, batchThreshold := bt, headerLen := hl, readSize := rs,
-                            maxBuffer := mb, checked := true, nameGuard := ng, codec := codec1, env := C15.envD }
+      let cfg : Config := mkCfg mp bt hl rs mb ng
       let srv := serve cfg (Pool.init ps true) specs (seqEvents specs.length)
       " | ".intercalate (srv.outs.map (fun o => showConn o.2))
     | _, _, _, _, _, _, _ => "bad-op"
@@ -109,8 +116,7 @@ def step (line : String) : String :=
     -- any well-formed commands (the reference executor does not know them): the number of replies only
     match mp.toNat?, bt.toNat?, hlOf hl, rs.toNat?, mb.toNat?, segsOf segs with
     | some mp, some bt, some (hl, ng), some rs, some mb, some ss =>
-      let cfg : Config := { minPipeline := mp, batchThreshold := bt, headerLen := hl, readSize := rs,
-                            maxBuffer := mb, checked := true, nameGuard := ng, codec := codec1, env := C15.envD }
+      let cfg : Config := mkCfg mp bt hl rs mb ng
       let acts := run cfg ss
       -- replies that reach the wire: a panic takes the unflushed replies of its read with it
       let w := ConnW.runW cfg (fun (u : Unit) _ _ => (u, Val.nullBulk)) () [] ss none
@@ -120,8 +126,7 @@ def step (line : String) : String :=
   | ["C", mp, bt, hl, rs, mb, segs] =>
     match mp.toNat?, bt.toNat?, hlOf hl, rs.toNat?, mb.toNat?, segsOf segs with
     | some mp, some bt, some (hl, ng), some rs, some mb, some ss =>
-      let cfg : Config := { minPipeline := mp, batchThreshold := bt, headerLen := hl, readSize := rs,
-                            maxBuffer := mb, checked := true, nameGuard := ng, codec := codec1, env := C15.envD }
+      let cfg : Config := mkCfg mp bt hl rs mb ng
       let acts := run cfg ss
       let rs := replies ExSt.init acts
       s!"n={rs.length} [{" ; ".intercalate (rs.map showReply)}] end={if crashed acts then "crash" else "eof"}"
